@@ -822,7 +822,7 @@ func genC18(t *rapid.T, tier Tier) C18Case {
 		case "symbol":
 			k := rapid.IntRange(0, 2).Draw(t, "nparts")
 			for j := 0; j < k; j++ {
-				s.SS = append(s.SS, rapid.SampledFrom([]string{"&", "|", "∧", "&&", "!"}).Draw(t, "part"))
+				s.SS = append(s.SS, rapid.SampledFrom([]string{"&", "|", "∧", "&&", "!", "Xor", "nand", "x"}).Draw(t, "part"))
 			}
 			if s.SS == nil {
 				s.SS = []string{}
